@@ -344,8 +344,22 @@ func (e *Env) monitorStaking(st *Step, f []string, kind string, ok bool, src []s
 	bond := post.BondDenom
 	now := post.Time
 	if kind == "endblock" && ok {
-		if post.Bal(AccModule, bond).Sign() != 0 {
-			st.fail("C11", "module_holds_bond", "module account holds %s of the staking denom after EndBlocker", post.Bal(AccModule, bond))
+		if left := post.Bal(AccModule, bond); left.Sign() != 0 {
+			// the known mechanism: rewards withdrawn for a validator WITHOUT alliance delegator shares are not forwarded to the
+			// pool (AddAssetsToRewardPool returns early). Whatever stays beyond that came from a validator that has delegator
+			// shares, i.e. from a withdrawal that was not followed by the forwarding claim.
+			explained := new(big.Int)
+			for v, amt := range e.withdrawnByVal(st, bond) {
+				vi := post.Val(v)
+				if vi == nil || len(vi.TDS) == 0 {
+					explained.Add(explained, amt)
+				}
+			}
+			if left.Cmp(explained) > 0 {
+				st.fail("C11", "module_holds_bond_unforwarded", "module account holds %s of the staking denom after EndBlocker, of which only %s was withdrawn for validators without delegator shares", left, explained)
+			} else {
+				st.fail("C11", "module_holds_bond", "module account holds %s of the staking denom after EndBlocker", left)
+			}
 		}
 		// per-validator target. Native bonded stake is measured as the rebalancer measures it, at its start:
 		// bonded pool minus the truncated sum of the module's truncated token values on bonded validators.
